@@ -548,6 +548,7 @@ func TestC06(t *testing.T) {
 		"to be modified prints exactly as before, defined variables have the defined value; members of the modified group are re-synchronised (don't care). " +
 		"Grids: every (creation mode x length) x every deriving operation instance x every operation instance on the original or the derived list (pairs), x every mutator instance on any of the three lists (triples; " +
 		"quick tier: restricted operation sets and lengths 1..2, thorough: all operations, lengths 0..3, pairs up to length 4). " +
+		"nested-extend: copy-alist / copy-tree of a list of 1..5 entries (lists of 1..4 integers, two-element ones also as dotted pairs), then one entry of the copy (or of the source) is extended in place by 1..3 elements with nconc, add or rplacd of its last cell: every other entry of both lists prints as before. " +
 		"Non-trivial: a step that stored a non-empty list derived from a non-empty pool list is followed by a destructive or extending step (setf rplac* nconc n* sort delete* add push append cons list*) " +
 		"while at least 2 variables outside the affected group are non-empty. Distinct by the JSON of the case.")
 	h.Assume("the reference model internal/reflist implements the Common Lisp rules for which lists may share cells (CLHS: copy-list, subseq, reverse, butlast, mapcar, append's copied arguments are fresh; cdr/nthcdr/last/member/cons/list*/append's last argument share; remove* may share; the empty list shares nothing)")
@@ -556,6 +557,7 @@ func TestC06(t *testing.T) {
 	h.RunProp(t, pairs, 0)
 	h.RunProp(t, trips, 0)
 	h.RunProp(t, hist, h.N(60000, 1200000))
+	testNested(t)
 
 	if h.C.ReplayIn != "" {
 		return
